@@ -4,10 +4,7 @@ import (
 	"math/rand"
 
 	"verifharness/internal/hx"
-	"verifharness/internal/srv"
 )
 
-func agree(cmd string, args []string, j jdoc, rv srv.Value, st *state) string { return "" }
-func special(b *bb)                                                          {}
-func runModel(r *hx.Result, cfg hx.Config, rng *rand.Rand)                   {}
-func runTemplates(r *hx.Result, cfg hx.Config)                               {}
+func runModel(r *hx.Result, cfg hx.Config, rng *rand.Rand) {}
+func runTemplates(r *hx.Result, cfg hx.Config)             {}
